@@ -262,5 +262,5 @@ PROPS["C16"] = {
 for _pid in ("C01", "C02", "C06", "C07", "C08", "C09", "C10", "C11", "C12", "C13", "C14", "C15", "C16", "C17"):
     _P = PROPS[_pid]
     _P["translators"] = list(_P.get("translators", [])) + ["mirrors2lean"]
-    _P["lean_targets"] = list(_P.get("lean_targets", [])) + ["JediVerif.Properties.Mirrors"]
-    _P["theorems"] = (lambda _old=_P["theorems"], _p=_pid: _old() + [("Jedi.Mirrors.mirror_%s" % _p, "JediVerif.Properties.Mirrors")])
+    _P["lean_targets"] = list(_P.get("lean_targets", [])) + ["JediVerif.Properties.Mirrors.%s" % _pid]
+    _P["theorems"] = (lambda _old=_P["theorems"], _p=_pid: _old() + [("Jedi.Mirrors.mirror_%s" % _p, "JediVerif.Properties.Mirrors.%s" % _p)])
